@@ -28,6 +28,7 @@ for sig, what in [
 known("C01", "C01-root-node-no-root-steps", ["root-node", "root-node-fragments-0"], r"^errors: query plan contains no root steps$",
       "root node() without inline fragments is planned into zero root steps (the planner keeps only inline fragments); since fix ee77ed7 this is an error instead of a process-killing nil dereference",
       witness='{ node(id:"N1_1") { id } }')
+fixed("C01", "C01-field-after-aliased-same-name-dropped", "86d53f0", "{ b: echo echo }: the plain field was discarded by the sanitizer because an earlier sibling with another alias has the same field name")
 fixed("C07", "C07-no-root-steps-crash", "ee77ed7", "{ node(id:\"N1_1\") { id } }: nil pointer dereference at executor/depth_executor_manager.go:60 in an AsyncMapReduce worker killed the process")
 fixed("C07", "C07-memberless-interface-crash", "932f200", "{ lonely { x } } with an interface nobody implements: index out of range at planner/sanitize_selection_set.go:135 killed the process")
 fixed("C07", "C07-null-batch-element", "ba943c5", "body [null]: nil pointer dereference at requests/request.go:117 inside the handler")
@@ -105,6 +106,42 @@ for i, sg in enumerate([r"^file bytes changed on the way$", r"^diff:VALUE at <fi
     known("C19", "C19-variable-consumed-twice-%d" % i, ["variable-consumed-twice"], sg,
       "a file variable used by two root fields (same or different services) is read by the first consumer only; extractFiles also nulls nested uploads in the client's shared variable tree (queryer/files.go:43-80), so the second consumer gets an empty file or null",
       witness="mutation($f:Upload){ upload(f:$f) upload1(f:$f) }")
+
+# ----------------------------------------------------------------------------- C15
+known("C15", "C15-arg-defaults-dropped", ["src:arg-default"], r"^(reconstruction MISSING arg default|an operation is valid against the source but not against the reconstruction \(or vice versa\))$",
+      "parseArgList (introspection/remote.go:354-367) never sets DefaultValue: every field-argument default of a remote schema is lost (a required argument with a default becomes mandatory)",
+      witness="type Query { echo(x: Int! = 7): Int }")
+known("C15", "C15-field-deprecations-dropped", ["src:field-deprecated"], r"^reconstruction MISSING field deprecated$",
+      "isDeprecated/deprecationReason of fields are decoded but not turned into @deprecated", witness="type Query { old: Int @deprecated }")
+known("C15", "C15-enum-deprecations-dropped", ["src:enumvalue-deprecated"], r"^reconstruction MISSING enumvalue deprecated$",
+      "isDeprecated/deprecationReason of enum values are decoded but not turned into @deprecated", witness="enum E { A @deprecated B }")
+known("C15", "C15-input-defaults-mangled", ["src:inputfield-default"], r"^reconstruction (MISSING|CHANGED) inputfield default$",
+      "parseInputField (introspection/remote.go:279-352) treats the defaultValue string (a GraphQL literal) as a JSON value of the field's named type: enum, object, list, null and quoted string defaults are dropped or re-quoted",
+      witness='input I { e: E = B l: [E!] = [A, B] s: String = "d" }')
+known("C15", "C15-directive-arg-defaults-dropped", ["src:directivearg-default"], r"^reconstruction MISSING directivearg default$",
+      "directive arguments go through the same parseArgList that never sets DefaultValue", witness='directive @tag(name: String! = "x") on FIELD_DEFINITION')
+fixed("C15", "C15-directive-args-dropped", "74761fb", "json tag `arg` instead of `args`: custom directives of a remote schema were reconstructed without arguments")
+
+# ----------------------------------------------------------------------------- C16
+known("C16", "C16-typename-inside-introspection", ["isel-__typename"], r"^introspection (\w+#?\d*\.)?__typename(#\d+)?: (want string got null|MISSING)$",
+      "__typename selected inside __schema/__type objects is answered with null or left out (the introspection resolvers have no case for it); at the root next to __schema it is dropped too",
+      witness='{ __type(name:"N1") { __typename kind } }')
+known("C16", "C16-schema-description", ["isel-__schema", "isel-description"], r"^introspection __schema\.description: MISSING$",
+      "__schema { description } (declared by the prelude the gateway validates against) is not resolved: the key is missing", witness="{ __schema { description } }")
+known("C16", "C16-directive-isRepeatable", ["isel-isRepeatable"], r"^introspection directives\.isRepeatable: MISSING$",
+      "__Directive.isRepeatable (declared by the prelude) is not resolved: the key is missing", witness="{ __schema { directives { isRepeatable } } }")
+known("C16", "C16-introspection-mixed-with-data", ["icase-mixed-with-data"], r"^introspection n1s: MISSING$",
+      "when an operation selects __schema/__type together with data fields the gateway answers the introspection part only and drops the data fields (gateway.go:266-270)",
+      witness="{ __schema { queryType { name } } n1s { id } }")
+known("C16", "C16-deprecation-reason-default", ["ts-deprecated", "isel-deprecationReason"], r"^(introspection fields\.deprecationReason: VALUE|standard-client rebuild CHANGED field deprecated)$",
+      "@deprecated without a reason is reported with an empty deprecationReason instead of the default reason the schema carries", witness="type Dep { older: Int @deprecated }")
+known("C16", "C16-second-gateway-loses-defaults-and-deprecations", ["icase-std-graphql-js"],
+      r"^second-gateway rebuild (MISSING|CHANGED) (arg default|enumvalue deprecated|field deprecated|inputfield default|directivearg default)$",
+      "a second gateway rebuilding this gateway's schema loses argument defaults, deprecations and mangles input defaults - the remote-introspection defects recorded under C15", witness="standard introspection of the gateway by introspection/remote.go")
+fixed("C16", "C16-kind-guards", "b1fec98", "fields/interfaces/enumValues/inputFields answered with lists for kinds that do not have them; a second gateway failed with 'Field X.y can only be defined once'")
+fixed("C16", "C16-type-by-variable", "70087a8", "__type(name: $n) looked up the variable's name")
+fixed("C16", "C16-interface-possible-types", "cacf763", "possibleTypes of interfaces was null")
+fixed("C16", "C16-input-field-default", "baffcba", "defaultValue missing from inputFields")
 
 json.dump(E, open('/verif/known_findings.json', 'w'), indent=1, ensure_ascii=False)
 print(len(E), "entries")
